@@ -8,9 +8,12 @@
 //! (all such states are reachable through the public API exactly like this), then applies ONE
 //! operation and checks INV of the result (Ok) or the error's offset / direction (Err).  No
 //! operation reads `parse_direction` (each one overwrites it first); the only other hidden state,
-//! `yielded_last_split`, is reached in the split harnesses by a symbolic split-family operation
-//! applied first (its result is *assumed* to satisfy INV there — it is *checked* as the operation
-//! under test of the same harnesses — so a defect shows up once, under the operation that has it).
+//! `yielded_last_split`, is only ever set together with an empty remainder and never cleared, so
+//! the split harnesses reach every flagged state by one `split`/`rsplit` on an empty parser at a
+//! symbolic char boundary (`exhausted_at`; its result is *assumed* to satisfy INV there — the same
+//! operations are *checked* as operations under test of c13_split_* — so a defect shows up once,
+//! under the operation that has it).  Hence one step from these states is the induction step for
+//! histories of any length.
 //!
 //! Assumption recorded in every bound text: base + orig.len() <= u32::MAX (the parser keeps its
 //! start offset in a u32; `with_start_offset` truncates silently beyond that).
